@@ -58,9 +58,11 @@ def run(chk):
         from ..core import Check
         sub = Check("C02", repo, chk.tier)
         c02.r3(sub)
+        for r_, why in sub.inconclusive:
+            chk.inconc("R3", why)
         chk.rule("R3", "default case is emitted when any literal or pattern is present (From) — full emission formula", floor=4)
         for i in sub.instances:
-            if i.key.startswith("default-case"):
+            if i.key.startswith("default-case") or i.key.startswith("variant["):  # which variants get an arm at all decides which values map back
                 if i.ok:
                     chk.ok("R3", i.key, i.file, i.line)
                 else:
